@@ -49,7 +49,7 @@ type UnaryScript struct {
 
 type TurnSpec struct {
 	Logs []LogSpec   `json:"logs,omitempty"`
-	Act  string      `json:"act"` // emit | finish | error | noemit | emit2 | finishx_emit | finishx_err | logonly_then_finish
+	Act  string      `json:"act"` // emit | finish | error | noemit | emit2 | finishx_emit | finishx_err | emit_then_error | emit_finish (producer: the data batch and Finish() in one Produce call)
 	Err  *ErrSpec    `json:"err,omitempty"`
 	Meta [][2]string `json:"meta,omitempty"`
 	Rows int         `json:"rows,omitempty"` // default 1
@@ -337,6 +337,12 @@ func (b *BaseState) turn(kind string, out *vgirpc.OutputCollector, base int64) e
 			return err
 		}
 		return t.Err.Build()
+	case "emit_finish":
+		// the last data batch shares its Produce call with Finish()
+		if err := emit(); err != nil {
+			return err
+		}
+		return out.Finish()
 	}
 	return fmt.Errorf("unknown act %q", t.Act)
 }
